@@ -242,7 +242,7 @@ fn leading_ws(l: &str) -> &str {
     &l[..n]
 }
 
-fn c18_expected(s: &str) -> String {
+pub fn c18_expected(s: &str) -> String {
     let lines: Vec<&str> = s.lines().collect();
     let mut margin: Option<String> = None;
     for l in &lines {
@@ -373,7 +373,7 @@ pub fn lws(rng: &mut crate::rng::Rng, kind: usize) -> Vec<f64> {
     (0..n).map(|_| { let x = num(rng, kind); if x.is_nan() { 0.0 } else { x } }).collect()
 }
 
-fn is_partition(lens: &[usize], n: usize) -> bool {
+pub fn is_partition(lens: &[usize], n: usize) -> bool {
     if n == 0 {
         return lens == [0];
     }
@@ -381,7 +381,7 @@ fn is_partition(lens: &[usize], n: usize) -> bool {
 }
 
 /// C07's characterisation, evaluated in f64 exactly as stated in the property
-fn greedy_ok(frs: &[F], lw: &[f64], lens: &[usize]) -> Result<(), String> {
+pub fn greedy_ok(frs: &[F], lw: &[f64], lens: &[usize]) -> Result<(), String> {
     let dflt = lw.last().copied().unwrap_or(0.0);
     let mut idx = 0;
     for (k, &len) in lens.iter().enumerate() {
